@@ -10,7 +10,11 @@ registry) and the file-backed state: `Core`.
 -/
 import PromVerif.Lemmas.BackendsWrites
 import PromVerif.Lemmas.MetricsRun
-import PromVerif.Props.C01
+import PromVerif.Lemmas.MetricsCollect
+import PromVerif.Lemmas.MetricsFrame
+import PromVerif.Lemmas.MetricsNodup
+import PromVerif.Lemmas.MetricsConstruct
+import PromVerif.Lemmas.MetricsHist
 import PromVerif.Spec.Backends
 
 namespace PromVerif.Lemmas.Backends
@@ -110,7 +114,7 @@ theorem cells_length (d : MDecl V) (key : List Str) (acts : List (Action V)) :
   cases hk : d.decl.kind with
   | histogram bs =>
     simp only [List.length_cons, List.length_map]
-    rw [PromVerif.Props.C01.reachable_buckets_length d.decl bs hk acts]
+    rw [PromVerif.Lemmas.Metrics.reachable_buckets_length d.decl bs hk acts]
   | _ => rfl
 
 /-- the (prefix, key) identities of cells with pairwise different keys are pairwise different -/
